@@ -105,6 +105,16 @@ func (tr *tokenReader) Token() token {
 // The read token, if this returns true, can be obtained via
 // Token().
 func (tr *tokenReader) Next() bool {
+	ok := tr.next()
+	if !ok {
+		// no token was read: do not leave the previous one around to be
+		// consulted, or handed out again by UnNext, as if it were new
+		tr.nextToken = token{loc: tr.nextToken.loc}
+	}
+	return ok
+}
+
+func (tr *tokenReader) next() bool {
 	if tr.keepNextToken {
 		tr.keepNextToken = false
 		return true
